@@ -309,6 +309,7 @@ MCWorld(hh) == [len |-> [a |-> 1, b |-> 2, c |-> 3, d |-> 2], h |-> hh,
                 cidLen |-> [T1 |-> 2, T2 |-> 4], tsize |-> [T1 |-> 1, T2 |-> 200]]
 MCWorlds == {MCWorld([a |-> <<0, 0, 0, 0>>, b |-> <<0, 1, 0, 0>>, c |-> <<0, 1, 1, 0>>, d |-> <<1, 0, 0, 0>>]),
              MCWorld([a |-> <<0, 0, 0, 1>>, b |-> <<0, 0, 0, 0>>, c |-> <<0, 1, 1, 0>>, d |-> <<0, 1, 0, 0>>])}
+MCWorlds1 == {MCWorld([a |-> <<0, 0, 0, 0>>, b |-> <<0, 1, 0, 0>>, c |-> <<0, 1, 1, 0>>, d |-> <<1, 0, 0, 0>>])}
 MCCfgs(ww) == {c \in [kind : Kinds, est : Ests, gthr : {0, 9, 1000}, thr : {0, 8}, maxLinks : {0, 2},
                       width : {8}, stat : {"none"}, cb : {"v0"}] :
                  /\ c.est # "disabled" => c.gthr > 0
